@@ -717,6 +717,27 @@ class MatchModel(object):
     """the (truthy) result of a successful symbolic regex match; groups are not modelled"""
 
 
+_ND_RANGES = None
+
+
+def _unicode_decimal_ranges():
+    """[(lo, hi)] code point ranges of the characters str patterns match with \\d (general category Nd), limited to what z3's character sort holds"""
+    global _ND_RANGES
+    if _ND_RANGES is None:
+        import unicodedata
+        out, start, prev = [], None, None
+        for cp in range(0x30000):
+            if unicodedata.category(chr(cp)) == 'Nd':
+                if start is None:
+                    start = cp
+                prev = cp
+            elif start is not None:
+                out.append((start, prev))
+                start = None
+        _ND_RANGES = out
+    return _ND_RANGES
+
+
 def _regex_to_z3(pat):
     """A small regex subset as a z3 regular expression anchored at the start: literals, character classes with ranges, the quantifiers * + ?,
     a leading ^, a trailing $ (Python semantics: end of string or just before a final newline) or \\Z (end of string).  Returns (regex, anchored_end)
@@ -739,10 +760,20 @@ def _regex_to_z3(pat):
         if c == '[':
             j = pat.index(']', i + 1)
             body = pat[i + 1:j]
-            if body.startswith('^') or '\\' in body:
+            if body.startswith('^'):
                 return None
             alts, k = [], 0
             while k < len(body):
+                if body[k] == '\\':
+                    # class escapes of a str pattern (re.UNICODE): \d is every Unicode decimal digit, \w adds letters - only \d and escaped punctuation are modelled
+                    if body[k + 1:k + 2] == 'd':
+                        alts.extend(z3.Range(chr(lo), chr(hi)) if lo != hi else z3.Re(chr(lo)) for lo, hi in _unicode_decimal_ranges())
+                    elif body[k + 1:k + 2] and not body[k + 1].isalnum():
+                        alts.append(z3.Re(body[k + 1]))
+                    else:
+                        return None
+                    k += 2
+                    continue
                 if k + 2 < len(body) and body[k + 1] == '-':
                     alts.append(z3.Range(body[k], body[k + 2]))
                     k += 3
